@@ -77,6 +77,8 @@ def closedHookOutcome : Hook → Outcome
 def coreEq (a b : R) : Prop :=
   a.out = b.out ∧ a.tape = b.tape ∧ { a.st with logAttached := false } = { b.st with logAttached := false }
 
+instance (a b : R) : Decidable (coreEq a b) := by unfold coreEq; infer_instance
+
 /-! ### generic facts about the statement language -/
 
 def Node.stmts : Node → List GS
@@ -889,7 +891,9 @@ theorem openOf_shape3 (st : Stack) : ∃ tail, openOf st = .simple ⟨.always, .
 theorem runOpen_congr (hc : cfg.code.openP = openOf cfg.stack) (x : St) (la la' : Bool) (tn tn' : Tn)
     (hla : la = true → cfg.sink ≠ .none) (hla' : la' = true → cfg.sink ≠ .none)
     (htn : resetTn (resetsOf cfg) tn = resetTn (resetsOf cfg) tn') (tape : List Ev) :
-    coreEq (runOpen cfg { x with logAttached := la, tn := tn } tape) (runOpen cfg { x with logAttached := la', tn := tn' } tape) := by
+    coreEq (runOpen cfg { x with logAttached := la, tn := tn } tape) (runOpen cfg { x with logAttached := la', tn := tn' } tape) ∧
+    ((transportOpen cfg { x with logAttached := la', tn := tn' } tape).ok = true →
+      (runOpen cfg { x with logAttached := la, tn := tn } tape).st = (runOpen cfg { x with logAttached := la', tn := tn' } tape).st) := by
   obtain ⟨tail, hsh⟩ := openOf_shape3 cfg.stack
   obtain ⟨t1, t2, t3⟩ := transportOpen_congr (cfg := cfg) x la la' tn tn' htn tape
   -- both runs, unfolded over the first three statements
@@ -942,6 +946,125 @@ theorem runOpen_congr (hc : cfg.code.openP = openOf cfg.stack) (x : St) (la la' 
   by_cases hok : (transportOpen cfg { x with logAttached := la', tn := tn' } tape).ok = true
   · simp [hok]
   · simp [hok, t1, t3]
+
+
+
+/-! ### histories -/
+
+/-- the state a history ends in -/
+def stateAfter (cfg : Cfg) : List (Op × List Ev) → St → St
+  | [], s => s
+  | (op, tape) :: rest, s => stateAfter cfg rest (runOp cfg op s tape).st
+
+theorem released_history (hfix : FixedCfg cfg) : ∀ (h : List (Op × List Ev)) (s : St), Inv cfg s → okHistory cfg h s = true →
+    ∀ p ∈ h.zip (runHistory cfg h s), p.1.1.closes = true → Released p.2.st := by
+  intro h
+  induction h with
+  | nil => intro s _ _ p hp; simp [runHistory] at hp
+  | cons x rest ih =>
+    obtain ⟨op, tape⟩ := x
+    intro s hinv hok p hp hcl
+    have hok' : allowed op s = true ∧ okHistory cfg rest (runOp cfg op s tape).st = true := by
+      simpa [okHistory] using hok
+    simp only [runHistory, List.zip_cons_cons, List.mem_cons] at hp
+    rcases hp with hp | hp
+    · subst hp
+      cases op with
+      | «open» => simp [Op.closes] at hcl
+      | operate => simp [Op.closes] at hcl
+      | close => exact (inv_close hfix s tape hinv).2.1
+      | withBlock body =>
+        have ha : s.needClose = false ∧ bodyOK body true = true := by simpa [allowed] using hok'.1
+        exact (inv_with hfix s tape body hinv ha.1 ha.2).2.1
+    · exact ih _ (inv_runOp hfix op s tape hinv hok'.1) hok'.2 p hp hcl
+
+theorem reach_of_history : ∀ (h : List (Op × List Ev)) (s : St), Reach cfg s → okHistory cfg h s = true → Reach cfg (stateAfter cfg h s) := by
+  intro h
+  induction h with
+  | nil => intro s hs _; exact hs
+  | cons x rest ih =>
+    obtain ⟨op, tape⟩ := x
+    intro s hs hok
+    have hok' : allowed op s = true ∧ okHistory cfg rest (runOp cfg op s tape).st = true := by
+      simpa [okHistory] using hok
+    exact ih _ (Reach.step op tape hs hok'.1) hok'.2
+
+/-! ### with-block whose open() fails -/
+
+theorem with_failed_open (hfix : FixedCfg cfg) (s : St) (tape : List Ev) (body : List BodyOp) (h : Inv cfg s) (hn : s.needClose = false)
+    (hfail : (runOpen cfg { s with needClose := true } tape).out ≠ .returns) :
+    (opWith cfg body s tape).out = .raises .connError ∧ Released (opWith cfg body s tape).st ∧
+    (opWith cfg body s tape).tape = (runOpen cfg { s with needClose := true } tape).tape := by
+  obtain ⟨_, hce, _⟩ := code_fixed_parts hfix.1
+  obtain ⟨ho1, _⟩ := inv_open hfix s tape h hn
+  unfold opOpen at ho1
+  obtain ⟨e1, e2, e3⟩ := runEnter_unfold hce { s with needClose := true } tape
+  have hok' : (runOpen cfg { s with needClose := true } tape).ok = false := (ok_false_iff _).2 hfail
+  have hek : (runEnter cfg { s with needClose := true } tape).ok = false := by
+    rw [ok_false_iff, e2]; simp [hok']
+  have hst : (runEnter cfg { s with needClose := true } tape).st
+      = channelClose cfg (transportClose cfg (runOpen cfg { s with needClose := true } tape).st) := by
+    rw [e1]; simp [hok']
+  have hr := closeBoth_released hfix.2 _ ho1.1
+  rw [← hst] at hr
+  unfold opWith
+  simp only [hek, Bool.not_false, if_true]
+  refine ⟨?_, Released_need false hr, e3⟩
+  rw [e2]; simp [hok']
+
+/-! ### second close -/
+
+theorem second_close (hfix : FixedCfg cfg) (c : St) (tape : List Ev) (hr : Released c) (hn : c.needClose = false) :
+    (opClose cfg c tape).st = c ∧ (opClose cfg c tape).tape = tape ∧ (opClose cfg c tape).out = closedHookOutcome cfg.onClose := by
+  obtain ⟨r1, r2, r3⟩ := runClose_fixed hfix.1 c tape
+  obtain ⟨h1, h2, h3⟩ := hookPart_closed (cfg := cfg) c tape hr.1
+  unfold opClose
+  simp only
+  refine ⟨?_, by rw [r3, h2], by rw [r2, h3]⟩
+  rw [r1, h1, closeBoth_id hfix.2 c hr]
+  cases c; simp_all
+
+/-! ### close() of the pre-fix code, when the hook does not raise -/
+
+theorem runClose_orig_ok (hc : cfg.code.closeP = closeOrig cfg.stack) (s : St) (tape : List Ev)
+    (hhook : (hookPart cfg s tape).out = .returns) :
+    (runClose cfg s tape).st = channelClose cfg (transportClose cfg (hookPart cfg s tape).st) := by
+  have hhead : ∃ st, Quiet (execStmt0 cfg) st ∧ closeHead cfg.stack = .simple ⟨.always, st⟩ := by
+    cases cfg.stack
+    · exact ⟨_, quiet0_logPre true, rfl⟩
+    · exact ⟨_, quiet0_logPost true, rfl⟩
+  obtain ⟨st0, hq0, hh0⟩ := hhead
+  unfold runClose
+  rw [hc]
+  simp only [closeOrig, hh0]
+  obtain ⟨a1, _, _⟩ := execProg_cons_always (cfg := cfg) (execStmt0 cfg) st0
+    [.simple ⟨.hasOnClose, .onClose⟩, .simple ⟨.always, .transportClose⟩, .simple ⟨.always, .channelClose⟩, .simple ⟨.always, .logPost true⟩] s tape
+  have hq := hq0 s tape
+  rw [a1]
+  simp only [(ok_iff _).2 hq.2.2, if_true, hq.1, hq.2.1]
+  have hn : execNode (execStmt0 cfg) cfg (.simple ⟨.hasOnClose, .onClose⟩) s tape = hookPart cfg s tape := by
+    unfold execNode hookPart; rfl
+  have hnok : (execNode (execStmt0 cfg) cfg (.simple ⟨.hasOnClose, .onClose⟩) s tape).ok = true := by
+    rw [hn]; exact (ok_iff _).2 hhook
+  obtain ⟨b1, _, _, _⟩ := execProg_cons_go (cfg := cfg) (execStmt0 cfg) (.simple ⟨.hasOnClose, .onClose⟩)
+    [.simple ⟨.always, .transportClose⟩, .simple ⟨.always, .channelClose⟩, .simple ⟨.always, .logPost true⟩] s tape hnok
+  rw [b1, hn]
+  obtain ⟨c1, _, _⟩ := execProg_cons_always (cfg := cfg) (execStmt0 cfg) .transportClose
+    [.simple ⟨.always, .channelClose⟩, .simple ⟨.always, .logPost true⟩] (hookPart cfg s tape).st (hookPart cfg s tape).tape
+  rw [c1]
+  have htc : ∀ y tp, execStmt0 cfg .transportClose y tp = ⟨.returns, transportClose cfg y, tp, ["tclose"]⟩ := fun _ _ => rfl
+  have hcc : ∀ y tp, execStmt0 cfg .channelClose y tp = ⟨.returns, channelClose cfg y, tp, ["cclose"]⟩ := fun _ _ => rfl
+  have hlp : ∀ y tp, execStmt0 cfg (.logPost true) y tp = ⟨.returns, y, tp, ["post:c"]⟩ := fun _ _ => rfl
+  obtain ⟨d1, _, _⟩ := execProg_cons_always (cfg := cfg) (execStmt0 cfg) .channelClose
+    [.simple ⟨.always, .logPost true⟩] (transportClose cfg (hookPart cfg s tape).st) (hookPart cfg s tape).tape
+  obtain ⟨e1, _, _⟩ := execProg_cons_always (cfg := cfg) (execStmt0 cfg) (.logPost true)
+    [] (channelClose cfg (transportClose cfg (hookPart cfg s tape).st)) (hookPart cfg s tape).tape
+  simp only [htc, R.ok] at d1 ⊢
+  simp only [beq_self_eq_true, if_true]
+  rw [d1]
+  simp only [hcc, R.ok, beq_self_eq_true, if_true] at e1 ⊢
+  rw [e1]
+  simp [hlp, R.ok]
 
 
 end Scrapli.Lifecycle
